@@ -107,8 +107,16 @@ def check(prop, tier, seed, replay=None):
     # 3./4. correspondence and oracle search
     if replay:
         ctx.replay = json.load(open(replay))
+    # thorough tier: several rounds of the property's streams, each from a PRNG derived from the seed
+    # (round 0 is the quick/thorough-sized run of the given seed; later rounds re-draw every random choice)
+    rounds = 1 if tier != "thorough" or replay else max(1, int(os.environ.get("VERIF_ROUNDS") or getattr(spec, "thorough_rounds", 6)))
     try:
-        spec.run(ctx)
+        for r in range(rounds):
+            if r:
+                ctx.rng = random.Random("%s/%d/%d" % (prop, seed, r))
+            spec.run(ctx)
+            if ctx.failures and any(findings.match(findings.load(), prop, f) is None for f in ctx.failures):
+                break
     except Exception:
         broken.append(("machinery", "exception", traceback.format_exc()[-3000:]))
     for d in ctx.corr_diffs[:50]:
@@ -176,6 +184,7 @@ def check(prop, tier, seed, replay=None):
         "known_findings_hit": known_lines,
         "broken_ties": [list(b[:2]) for b in broken],
         "hypotheses_monitored": ctx.hypotheses,
+        "rounds": rounds,
     })
     ev["violations"] = len(replay_paths)
     ev["wall_s"] = round(time.time() - t0, 2)
